@@ -1153,6 +1153,20 @@ impl DcpsDomainParticipant {
                                         .status_condition
                                         .add_communication_state(StatusKind::PublicationMatched);
                                 } else {
+                                    // The incompatibility of a given reader is one status change:
+                                    // it is counted and signalled once, not at every iteration
+                                    if data_writer
+                                        .incompatible_subscriptions
+                                        .incompatible_subscription_list
+                                        .contains(&InstanceHandle::new(
+                                            discovered_reader_data
+                                                .dds_subscription_data
+                                                .key()
+                                                .value,
+                                        ))
+                                    {
+                                        continue;
+                                    }
                                     data_writer
                                         .incompatible_subscriptions
                                         .add_incompatible_subscription(
@@ -1662,6 +1676,15 @@ impl DcpsDomainParticipant {
                                         .status_condition
                                         .add_communication_state(StatusKind::SubscriptionMatched);
                                 } else {
+                                    // The incompatibility of a given writer is one status change:
+                                    // it is counted and signalled once, not at every iteration
+                                    if data_reader.incompatible_writer_list.contains(
+                                        &InstanceHandle::new(
+                                            discovered_writer_data.dds_publication_data.key().value,
+                                        ),
+                                    ) {
+                                        continue;
+                                    }
                                     data_reader.add_requested_incompatible_qos(
                                         InstanceHandle::new(
                                             discovered_writer_data.dds_publication_data.key().value,
